@@ -135,8 +135,12 @@ def body_result_conversion(h):
 
 def body_deftype_change(h):
     """DEFINT between DEF FN and the call changes which variable an untyped parameter names"""
-    prog = [b'10 DEF FNT(X)=X+0: DEFINT X', b'20 R!=FNT(21): E%=1']
+    # (P% does not exist before the call: a parameter must not be left behind as a new variable's value)
+    prog = [b'10 DEF FNT(X)=X+0: DEF FNU(P)=P OR 0: DEFINT X, P', b'20 R!=FNT(21): R%=FNU(A%): G%=P%: E%=1']
     impl, raws = _run(h, prog)
+    h.require('parameter-not-left-behind', _geti(impl, b'G%') == 0, _geti(impl, b'G%'))
+    h.require('result-is-the-argument', _geti(impl, b'R%') == s16(raws[b'A%']))
+    raws = dict((k, v) for k, v in raws.items() if k != b'G%')
     _unchanged(h, impl, raws)
     h.require('completed', s_and(_geti(impl, b'E%') == 1, impl.interpreter.error_num == 0))
     return [_geti(impl, b'E%')]
